@@ -1,6 +1,6 @@
 (* C18_spec.v — the specification side of C18: what "the same pairs" means.
    Definitions only (no model code is mentioned here except the value type). *)
-From Verif Require Import lib.Base lib.Utf8 model.Qsl.
+From Verif Require Import lib.Base lib.Str lib.Utf8 model.Qsl.
 
 (* ================================================================== *)
 (* Specification: grouping of submitted pairs                           *)
@@ -34,3 +34,24 @@ Definition group (ps : list (str * str)) : fdict :=
 Definition sendable (ps : list (str * str)) : Prop :=
   Forall (fun kv => fst kv <> [] /\ Forall scalar (fst kv) /\ Forall scalar (snd kv)) ps.
 
+
+(* ================================================================== *)
+(* Specification of parse_qsl on ARBITRARY strings                      *)
+(* ================================================================== *)
+
+(* split on '&'; in each segment drop leading '='s (the "empty key" rule of
+   helpers.py skips a leading '=' and starts over); an empty remainder gives
+   nothing; otherwise split at the first '=' (no '=': blank value) and
+   percent-decode both sides *)
+Definition seg_pairs (seg : str) : list (str * str) :=
+  match lstrip_set (fun c => N.eqb c 61) seg with
+  | [] => []
+  | seg' =>
+    match split_once N.eqb 61%N seg' with
+    | (k, None) => [(decode_component k, [])]
+    | (k, Some v) => [(decode_component k, decode_component v)]
+    end
+  end.
+
+Definition qsl_spec (qs : str) : list (str * str) :=
+  flat_map seg_pairs (split_all N.eqb 38%N qs).
